@@ -78,3 +78,11 @@ Example ex_stable_nontrivial :
   find_term (s2b "GET / HTTP/1.1" ++ [13;10;13]%N) = None /\
   find_term (s2b "GET / HTTP/1.1" ++ [13;10;13]%N ++ [10]%N) = Some 18%nat.
 Proof. vm_compute. split; reflexivity. Qed.
+
+(* extra CR before the terminator of the Content-Length line: refused, the pipelined request is never dispatched *)
+Example ex_extra_cr :
+  strict_reader cfg0 (s2b "POST / HTTP/1.1" ++ nl ++ s2b "Host: a" ++ nl ++ s2b "Content-Length: 3" ++ [13; 13; 10]%N ++ nl ++
+                      s2b "abc" ++ lines ["GET /smuggled HTTP/1.1"; "Host: a"; ""]) = [EvBad400] /\
+  strict_reader cfg0 (lines ["GET / HTTP/1.1"; "Host: a"] ++ [13; 13; 10]%N ++ lines ["X: y"; ""] ++
+                      lines ["GET /smuggled HTTP/1.1"; "Host: a"; ""]) = [EvBad400].
+Proof. split; vm_compute; reflexivity. Qed.
